@@ -194,8 +194,17 @@ def run_case(case, rng):
         kw_ = {} if iters is None else dict(iterations=iters)
         if wprior_t is not None:
             kw_["policy_prior"] = wprior_t
-        res = case.call("EntropyRegularizedPolicyIteration.plan_on",
-                        EntropyRegularizedPolicyIteration(entropy_weight=w, **kw_).plan_on, mdp)
+        wplanner = EntropyRegularizedPolicyIteration(entropy_weight=w, **kw_)
+        if rng.random() < 0.3:
+            # the same planner object first plans on an unrelated MDP (other sizes, its own default prior)
+            osp = G.random_spec(rng, "any", n_max=4, a_max=3, uniform_actions=True, allow_live_absorbing=False,
+                                allow_dup_actions=False)
+            G.restrict_to_closure(osp, rng)
+            osp.init = [(s_, p_) for s_, p_ in osp.init if p_ > 0]
+            if pk == "none":
+                case.call("EntropyRegularizedPolicyIteration.plan_on(other MDP first)", wplanner.plan_on, Bd.build(osp, "subclass"))
+                case.count("wrapper_planners_reused")
+        res = case.call("EntropyRegularizedPolicyIteration.plan_on", wplanner.plan_on, mdp)
         case.count("wrapper_calls")
         case.count("raw_calls", 0)
         case.nontrivial = len(A) >= 2
